@@ -15,16 +15,34 @@ class Disconnection:
     if not self.is_connected():
       raise gfapy.RuntimeError(
         "Line {} is not connected to a GFA instance".format(self))
-    self._disconnecting = True
+    # the lines which depend on this line are disconnected too, and so are
+    # the lines which depend on them; the cascade is iterative (a stack of
+    # lines whose dependent lines are still to be handled), as e.g. groups
+    # can be nested to any depth
+    stack = [(self, False)]
     try:
-      self._remove_field_backreferences()
-      self._remove_field_references()
-      self._disconnect_dependent_lines()
-      self._remove_nonfield_backreferences()
-      self._remove_nonfield_references()
-      self._gfa._unregister_line(self)
-      self._gfa = None
+      while stack:
+        line, dependent_lines_done = stack.pop()
+        if not dependent_lines_done:
+          if not line.is_connected() or \
+              getattr(line, "_disconnecting", False):
+            continue
+          line._disconnecting = True
+          stack.append((line, True))
+          line._remove_field_backreferences()
+          line._remove_field_references()
+          for dependent in reversed(line._dependent_lines()):
+            stack.append((dependent, False))
+        else:
+          line._remove_nonfield_backreferences()
+          line._remove_nonfield_references()
+          line._gfa._unregister_line(line)
+          line._gfa = None
+          line._disconnecting = False
     finally:
+      for line, dependent_lines_done in stack:
+        if dependent_lines_done:
+          line._disconnecting = False
       self._disconnecting = False
 
   def _delete_reference(self, line, key):
@@ -92,17 +110,15 @@ class Disconnection:
         and not getattr(self, "_disconnecting", False):
       self.disconnect()
 
-  def _disconnect_dependent_line(self, ref):
+  def _add_dependent_line(self, ref, retval):
     if isinstance(ref, gfapy.Line):
-      if ref.is_connected():
-        ref.disconnect()
+      retval.append(ref)
     elif isinstance(ref, gfapy.OrientedLine):
       if isinstance(ref.line, gfapy.Line):
-        if ref.line.is_connected():
-          ref.line.disconnect()
+        retval.append(ref.line)
     elif isinstance(ref, list):
       for i in range(len(ref)):
-        self._disconnect_dependent_line(ref[i])
+        self._add_dependent_line(ref[i], retval)
 
   def _remove_field_backreferences(self):
     """
@@ -116,11 +132,12 @@ class Disconnection:
     for k in self.__class__.REFERENCE_FIELDS:
       self._remove_backreference(self.get(k), k)
 
-  def _disconnect_dependent_lines(self):
+  def _dependent_lines(self):
+    retval = []
     for k in self.__class__.DEPENDENT_LINES:
-      # the list is modified while the dependent lines are disconnected
-      for ref in list(self._refs.get(k, [])):
-        self._disconnect_dependent_line(ref)
+      for ref in self._refs.get(k, []):
+        self._add_dependent_line(ref, retval)
+    return retval
 
   def _remove_nonfield_backreferences(self):
     for k in self.__class__.OTHER_REFERENCES:
